@@ -36,7 +36,7 @@ type c15Client struct {
 
 type c15Case struct {
 	Clients []c15Client `json:"clients"`
-	Reloads []string    `json:"reloads"` // documents pushed while the clients run: "A" | "B"
+	Reloads []string    `json:"reloads"` // documents pushed while the clients run: "A" | "B" | "C"
 	Format  string      `json:"format"`
 	Lookups int         `json:"lookups"`
 	Cancel  string      `json:"cancel"` // after | during
@@ -44,7 +44,10 @@ type c15Case struct {
 
 // Configurations A and B: under A 10.1.0.5 is bound to key-A; under B it is denied.  B's provider for
 // the same prefix has another key, so "B's providers seen through A's filters" yields key-B, which
-// neither configuration allows.
+// neither configuration allows.  C is A with its secret configurations renamed, so that no user is in any
+// of them and nothing can be served, and without filters; 10.1.9.7 is denied by A's and B's filters and
+// has no provider under C, so any answer for it other than a refusal shows the providers of one
+// configuration behind the filters of another.
 func c15Config(which string) cfggen.Config {
 	var c cfggen.Config
 	key := "key-A"
@@ -52,10 +55,13 @@ func c15Config(which string) cfggen.Config {
 		key = "key-B"
 	}
 	c.Secrets = []cfggen.Secret{cfggen.NewSecret("s1", key, "10.1.0.0/16"), cfggen.NewSecret("s2", key+"2", "10.3.0.0/16")}
-	if which == "B" {
+	switch which {
+	case "B":
 		c.PrefixDeny = []string{"10.1.0.0/16"}
-	} else {
-		c.PrefixDeny = []string{"10.9.0.0/16"}
+	case "C":
+		c.Secrets = []cfggen.Secret{cfggen.NewSecret("x1", key, "10.1.0.0/16"), cfggen.NewSecret("x2", key+"2", "10.3.0.0/16")}
+	default:
+		c.PrefixDeny = []string{"10.9.0.0/16", "10.1.9.0/24"}
 	}
 	file := cfggen.FileAccounter()
 	cmds := []cfggen.Command{{Name: " show ", Match: []string{" version ", "system.* ", " (run|conf).*"}, Action: cfggen.ActionPermit}, {Name: "configure", Match: []string{"terminal "}, Action: cfggen.ActionDeny}, {Name: "*", Action: cfggen.ActionDeny}}
@@ -86,7 +92,7 @@ func genC15(t *rapid.T) c15Case {
 	c.Clients[1].Ops = append([]string{"pap-kc"}, append(c.Clients[1].Ops, "cmd", "cmd")...)
 	nr := rapid.IntRange(1, 4).Draw(t, "nreloads")
 	for i := 0; i < nr; i++ {
-		c.Reloads = append(c.Reloads, rapid.SampledFrom([]string{"A", "B", "B"}).Draw(t, "reload"))
+		c.Reloads = append(c.Reloads, rapid.SampledFrom([]string{"A", "B", "B", "C"}).Draw(t, "reload"))
 	}
 	c.Lookups = rapid.IntRange(20, 200).Draw(t, "lookups")
 	return c
@@ -225,7 +231,7 @@ func runC15(t failer, c c15Case) c15Result {
 		violation(t, "C15", "atomicity", "C15:"+sig, c, format, args...)
 	}
 	docs := map[string][]byte{}
-	for _, w := range []string{"A", "B"} {
+	for _, w := range []string{"A", "B", "C"} {
 		if c.Format == "json" {
 			docs[w] = c15Config(w).JSON()
 		} else {
@@ -339,10 +345,15 @@ func runC15(t failer, c c15Case) c15Result {
 		for i := 0; i < c.Lookups; i++ {
 			secret, h, err := st.Loader.Get(context.Background(), ra)
 			switch {
-			case err != nil && secret == nil && h == nil: // denied: B's answer
+			case err != nil && secret == nil && h == nil: // denied: B's answer (C: no provider)
 			case err == nil && string(secret) == "key-A": // A's answer
 			default:
-				errs <- fmt.Sprintf("VIOLATION-MIX lookup %d for 10.1.0.5 answered (secret %q, err %v): configuration A binds it to key-A, configuration B denies it; this answer mixes the two", i, secret, err)
+				errs <- fmt.Sprintf("VIOLATION-MIX lookup %d for 10.1.0.5 answered (secret %q, err %v): configuration A binds it to key-A, configuration B denies it, C has no provider; this answer mixes two of them", i, secret, err)
+				return
+			}
+			// 10.1.9.7: denied by A and by B, without a provider under C
+			if s2, h2, err2 := st.Loader.Get(context.Background(), &net.TCPAddr{IP: net.IPv4(10, 1, 9, 7), Port: 1}); err2 == nil || s2 != nil || h2 != nil {
+				errs <- fmt.Sprintf("VIOLATION-MIX lookup %d for 10.1.9.7 answered (secret %q, err %v): configurations A and B deny the address and C has no provider for it; this answer puts the providers of one configuration behind the filters of another", i, s2, err2)
 				return
 			}
 			select {
